@@ -285,6 +285,12 @@ def check_one(case):
         return [('%s:construct-exception:%s:%s' % (facet, exc_sig(e), feature(case)), repr(e))]
     if not isinstance(raw, (bytes, bytearray)):
         return [('%s:construct-returns:%s' % (facet, type(raw).__name__), 'Update.construct returned %r' % (raw,))]
+    try:       # the octets are a function of the value: the same object encodes to the same message again
+        again = Update.construct({'attr': attr}, True)
+    except Exception as e:
+        again = repr(e)
+    if again != raw:
+        return [('%s:construct-not-repeatable' % facet, 'first %s, second %s' % (bytes(raw).hex()[:200], again.hex()[:200] if isinstance(again, (bytes, bytearray)) else again))]
     try:
         frames = rc.split_frames(raw)
         assert len(frames) == 1
